@@ -1292,6 +1292,37 @@ def c16(tier):
                 evs.sort(key=lambda e: e["seq"])
                 threads.append({"thread": 400 + t, "events": [{"id": e["id"], "seq": e["seq"], "shape": e["shape"], "kind": e["kind"], "bits": e["bits"]} for e in evs]})
             over_calls += rounds * len(hot)
+            # first-use phase: FRESH processes in which every thread makes its first (and only) call at the same moment
+            # (barrier), each with a different big-integer-path input: lazily initialised shared data is built by one
+            # thread while the others already need it
+            nfirst = 40 if q else 400
+            fevents = collections.defaultdict(list)
+            # inputs that need DIFFERENT amounts of the lazily built data: the power of five applied on the big-integer
+            # path is (about) the number of decimal places of the last kept digit; two inputs per multiple of 135
+            slow_all = [r for r in inputs if r["id"] in {o["id"] for o in slow}]
+            def need(r):
+                nd = core.segs_len(r["int"]) + core.segs_len(r["frac"])
+                e_last = r["exp"] - core.segs_len(r["frac"]) + max(0, nd - 770)
+                return max(0, -e_last) // 135 if e_last < 0 else min(8, e_last // 135)
+            byneed = collections.defaultdict(list)
+            for r in slow_all:
+                byneed[need(r)].append(r)
+            firsts = [r for kk in sorted(byneed) for r in byneed[kk][:2]][:16]
+            if len(firsts) < 4:
+                firsts = hot[:16]
+            for rep in range(nfirst):
+                fo = os.path.join(wd, "first-out-%s.ndjson" % cfg.replace("+", "_"))
+                nth = min(len(firsts), 16)
+                # rotate which input each thread gets
+                rot = firsts[rep % len(firsts):] + firsts[:rep % len(firsts)]
+                fi = os.path.join(wd, "first-in.ndjson")
+                core.write_ndjson(fi, [{k: v for k, v in r.items() if k != "tag"} for r in rot[:nth]])
+                core.run([os.path.join(bindir, "run_parse"), "--in", fi, "--out", fo, "--threads", str(nth), "--hammer", "1"], timeout=600)
+                for o in core.read_ndjson(fo):
+                    fevents[rep].append(o)
+            for rep, evs in sorted(fevents.items()):
+                threads.append({"thread": 1000 + rep, "events": [{"id": e["id"], "seq": k, "shape": e["shape"], "kind": e["kind"], "bits": e["bits"]}
+                                                                  for k, e in enumerate(evs)]})
         ep = os.path.join(wd, "events-%s.ndjson" % cfg.replace("+", "_"))
         bp = os.path.join(wd, "baseline-%s.ndjson" % cfg.replace("+", "_"))
         core.write_ndjson(ep, threads)
@@ -1310,7 +1341,7 @@ def c16(tier):
         nevents += sum(len(t["events"]) for t in threads)
     cov = {
         "states": mc.distinct + tstates, "transitions": mc.generated + ttrans,
-        "traces_validated_against_impl": len(cfgs) * (2 * nthreads + 3), "evaluations": nevents, "histories": len(hist_ids), "oversubscribed_calls": over_calls,
+        "traces_validated_against_impl": len(cfgs) * (2 * nthreads + 3), "evaluations": nevents, "histories": len(hist_ids), "oversubscribed_calls": over_calls, "first_use_processes": (40 if q else 400) * len(cfgs),
         "distinct_nontrivial": len(inputs) * 10,
         "rule": "MC_Calls: 3 threads x 2 inputs x every initial stack content x every interleaving, up to 2 calls per thread; the four "
                 "failure designs (shared scratch buffer, length set before the cells are written, per-thread and global one-entry "
